@@ -151,6 +151,9 @@ def verify_contract(reg: Registry, con: Contract, timeout_ms: int = 10000, secon
         res.solver_secs += p.solver_time
         # discharge the obligations of this path
         caps = [a[2] for a in p.atoms.values() if a[0] in ("bytes", "intseq") and z3.is_expr(a[2]) and not z3.is_int_value(a[2])]
+        for a in p.atoms.values():
+            if a[0] == "int":  # prefer small integers in counter-models as well (replay must stay cheap)
+                caps.append(z3.If(a[1] >= 0, a[1], -a[1]) / 64)
         for ob in p.obls:
             if time.time() - t_start > budget_s:
                 o = res.ob(ob.name)
